@@ -32,16 +32,18 @@ def offsets_for(ctx, size, ps, per_frame):
     return sorted(o for o in offs if 0 <= o <= size)
 
 
-def run(ctx, n_quick=5, n_thorough=60):
+def run(ctx, n_quick=8, n_thorough=64):
     sc = C.Scratch()
     try:
         r = ctx.rng
         n = C.n_databases(ctx, n_quick, n_thorough)
-        kinds = ["plain", "ddl", "spill", "checkpoint_restart", "overflow_inplace", "grow_shrink", "header_pragmas"]
+        kinds = ["plain", "empty_out", "ddl", "spill", "checkpoint_restart", "overflow_inplace", "grow_shrink", "header_pragmas"]
         for i in range(n):
             cfg = F.random_cfg(r, page_sizes=[512, 1024] if i % 3 else [4096], small=True)
             cfg["rows"] = min(cfg["rows"], 20)
             kind = kinds[i % len(kinds)]
+            if kind == "empty_out":
+                cfg["page_size"] = r.choice([1024, 4096])      # (a page image ending in at least 512 zero bytes)
             try:
                 h = H.make_history(sc.path(f"h{i}"), cfg, r, kind=kind, n_commits=r.randint(2, 4))
             except sqlite3.Error as e:
@@ -60,37 +62,44 @@ def run(ctx, n_quick=5, n_thorough=60):
             for off in offs:
                 with open(tw, "wb") as fh:
                     fh.write(walb[:off])
-                case = {"kind": h.kind, "cfg": cfg, "events": h.events, "offset": off, "wal_size": len(walb), "seed": ctx.seed}
-                n0 = len(ctx.oracle_failures)
-                impl, vh, exc = C.compare_history_dump(ctx, h.db, tw, "vh.dump", with_trees=False)
-                info = W.read_wal(walb[:off])
-                ncommit = len(info["commits"]) if info else 0
-                if vh is None:
-                    ctx.branch("declined")
-                    continue
-                versions = vh.versions
-                ctx.mark(("torn", i, off), nontrivial=len(versions) >= 2)
-                ctx.branch(f"accepted-with-{min(len(versions), 5)}-versions")
-                # only committed states, in commit order
-                if len(versions) > len(h.snapshots) or len(versions) != ncommit + 1:
-                    ctx.oracle_fail("phantom-version", "a torn WAL yields a version that is not a committed transaction",
-                                    case, len(versions), ncommit + 1)
-                else:
-                    ks = sorted(versions)
-                    # rows of every version (sampled on quick) against the snapshot of that commit
-                    check = ks if (ctx.thorough() or off % 7 == 0) else [ks[-1]]
-                    for k in check:
-                        check_version_rows(ctx, versions[k], h.snapshots[k], h.tables, dict(case, version=k))
-                    if off % 5 == 0 or ctx.thorough():
-                        view = sqlite_view(h.db, tw, h.tables, sc, f"{i}-{off}")
-                        check_version_rows(ctx, versions[ks[-1]], view, h.tables, dict(case, version="last-vs-sqlite-recovery"))
-                if len(ctx.oracle_failures) > n0:
-                    C.keep_failing_files(ctx, n0, h.db, tw)
+                # relaxed format checking must not let an uncommitted tail through either: every third offset
+                for strict in ((True, False) if off % 3 == 1 else (True,)):
+                    case = {"kind": h.kind, "cfg": cfg, "events": h.events, "offset": off, "wal_size": len(walb), "seed": ctx.seed,
+                            "strict_format_checking": strict}
+                    n0 = len(ctx.oracle_failures)
+                    impl, vh, exc = C.compare_history_dump(ctx, h.db, tw, "vh.dump", strict=strict, with_trees=False)
+                    check_torn(ctx, sc, h, i, off, walb, tw, case, n0, vh)
             for f in (h.db, h.wal, tw):
                 if f and os.path.exists(f):
                     os.unlink(f)
     finally:
         sc.close()
+
+
+def check_torn(ctx, sc, h, i, off, walb, tw, case, n0, vh):
+    info = W.read_wal(walb[:off])
+    ncommit = len(info["commits"]) if info else 0
+    if vh is None:
+        ctx.branch("declined")
+        return
+    versions = vh.versions
+    ctx.mark(("torn", i, off, case["strict_format_checking"]), nontrivial=len(versions) >= 2)
+    ctx.branch(f"accepted-with-{min(len(versions), 5)}-versions")
+    # only committed states, in commit order
+    if len(versions) > len(h.snapshots) or len(versions) != ncommit + 1:
+        ctx.oracle_fail("phantom-version", "a torn WAL yields a version that is not a committed transaction",
+                        case, len(versions), ncommit + 1)
+    else:
+        ks = sorted(versions)
+        # rows of every version (sampled on quick) against the snapshot of that commit
+        check = ks if (ctx.thorough() or off % 7 == 0) else [ks[-1]]
+        for k in check:
+            check_version_rows(ctx, versions[k], h.snapshots[k], h.tables, dict(case, version=k))
+        if off % 5 == 0 or ctx.thorough():
+            view = sqlite_view(h.db, tw, h.tables, sc, f"{i}-{off}")
+            check_version_rows(ctx, versions[ks[-1]], view, h.tables, dict(case, version="last-vs-sqlite-recovery"))
+    if len(ctx.oracle_failures) > n0:
+        C.keep_failing_files(ctx, n0, h.db, tw)
 
 
 def search(ctx, broken):
